@@ -500,6 +500,10 @@ def rule_reset_points(ctx: Ctx) -> None:
             ctx.touch(m, fn)
             if accepted == RESET_POINTS:
                 ctx.ok("metric.reset-points", m, t, what=f"{q}: cuts at Input / MeasurementCNOTandReset / Output")
+            elif q.startswith("CircuitMaxEmitResetDepth") and not (accepted - RESET_POINTS) and "MeasurementCNOTandReset" in accepted:
+                # the two ends of the history may be handled by position (index 0, last index) instead of by name: whether the intervals come
+                # out right is decided on the history model (metric.reset-model)
+                ctx.ok("metric.reset-points", m, t, what=f"{q}: cuts at MeasurementCNOTandReset; history ends handled outside the name test (see metric.reset-model)")
             else:
                 extra, missing = sorted(accepted - RESET_POINTS), sorted(RESET_POINTS - accepted)
                 ctx.fail("metric.reset-points", m, t,
@@ -1017,3 +1021,67 @@ def rule_bit_order(ctx: Ctx, rels: List[str]) -> None:
 def qualname_of(fn):
     from ..core import qualname
     return qualname(fn)
+
+
+def rule_reset_depth_model(ctx: Ctx) -> None:
+    """metric.reset-model: CircuitMaxEmitResetDepth is, per emitter, the longest stretch between two consecutive re-initialisations of the
+    emitter — its Input node, every MeasurementCNOTandReset on it, its Output node — measured in positions of the emitter's gate history.
+    The per-emitter loop body of evaluate() is interpreted (gqsa/minterp.py) on every history Input, x1..xk, Output with k <= 4 and
+    x_i in {gate, MeasurementCNOTandReset, ClassicalCNOT}; the value it stores for the emitter must equal the longest interval."""
+    import itertools
+    from .. import minterp
+    repo = ctx.repo
+    m = repo.module(METRICS)
+    ev = repo.cls("CircuitMaxEmitResetDepth", METRICS).methods().get("evaluate")
+    if ev is None:
+        raise AnalysisError("CircuitMaxEmitResetDepth.evaluate missing")
+    ctx.touch(m, ev)
+    loops = [l for l in ev.body if isinstance(l, ast.For) and isinstance(l.iter, ast.Call) and call_name(l.iter) == "range" and l.iter.args
+             and norm(l.iter.args[-1]).endswith(".n_emitters") and isinstance(l.target, ast.Name)]
+    if len(loops) != 1:
+        raise AnalysisError("CircuitMaxEmitResetDepth.evaluate: the per-emitter loop was not found at the top level")
+    lp = loops[0]
+    ev_var = lp.target.id
+    stores = [a for a in ast.walk(lp) if isinstance(a, ast.Assign) and isinstance(a.targets[0], ast.Subscript) and norm(a.targets[0].slice) == ev_var]
+    if len(stores) != 1 or not isinstance(stores[0].targets[0].value, ast.Name):
+        raise AnalysisError("CircuitMaxEmitResetDepth.evaluate: the per-emitter result store was not found")
+    D = stores[0].targets[0].value.id
+    # a penalty applied inside the loop is reported by metric.source; here it is read as the identity
+    names = {"G": "Hadamard", "M": "MeasurementCNOTandReset", "K": "ClassicalCNOT"}
+
+    class _I(minterp.Interp):
+        def ev(self, e):
+            if isinstance(e, ast.Attribute) and e.attr == "__name__" and isinstance(e.value, ast.Call) and call_name(e.value) == "type" and len(e.value.args) == 1:
+                return self.ev(e.value.args[0])
+            return super().ev(e)
+    n_models = 0
+    for k in range(0, 5):
+        for mid in itertools.product("GMK", repeat=k):
+            hist = ["Input"] + [names[x] for x in mid] + ["Output"]
+            cuts = [i for i, t_ in enumerate(hist) if t_ in ("Input", "MeasurementCNOTandReset", "Output")]
+            want = max(b - a for a, b in zip(cuts, cuts[1:]))
+
+            def oracle(c, it, hist=hist):
+                if call_attr(c) == "reg_gate_history":
+                    return [list(hist), list(range(len(hist)))]
+                if isinstance(c.func, ast.Attribute) and "penalty" in c.func.attr and len(c.args) == 1:
+                    return it.ev(c.args[0])
+                return NotImplemented
+            env = {ev_var: 0, D: {}}
+            try:
+                _I(env, oracle).run(lp.body)
+            except minterp.Unmodelled as e:
+                raise AnalysisError(f"CircuitMaxEmitResetDepth.evaluate: the per-emitter loop is not decidable on the history model ({e})")
+            except minterp.ModelError as e:
+                ctx.fail("metric.reset-model", m, lp, f"CircuitMaxEmitResetDepth.evaluate fails on the emitter history {hist}: {e}", func="CircuitMaxEmitResetDepth.evaluate",
+                         construct="CircuitMaxEmitResetDepth: fails on the history model")
+                return
+            n_models += 1
+            got = env[D].get(0) if isinstance(env.get(D), dict) else None
+            if got != want:
+                ctx.fail("metric.reset-model", m, stores[0],
+                         f"CircuitMaxEmitResetDepth.evaluate gives {got} for the emitter history {hist}: the re-initialisations are at positions {cuts}, so the longest "
+                         f"stretch between two consecutive ones is {want}", func="CircuitMaxEmitResetDepth.evaluate",
+                         construct="CircuitMaxEmitResetDepth: wrong on the history model")
+                return
+    ctx.ok("metric.reset-model", m, lp, what=f"{n_models} emitter histories: longest interval between consecutive re-initialisations")
